@@ -4,7 +4,7 @@
     that do not contain the one-character separator, any number of empty
     sub-dictionaries.  Arrays: any leaf sizes along the packing axis, any slab
     type.  Spectral arrays: any sizes, any carrier with a zero. *)
-From Coq Require Import ZArith List Bool Lia.
+From Coq Require Import ZArith List Bool Lia Permutation.
 Import ListNotations.
 From Dino Require Import Base.Ops Model.Trees Thm.Trees.
 
@@ -35,6 +35,29 @@ Theorem C19_dict_eq_is_pathwise (t1 t2 : tree) :
 Proof.
   intros N1 N2. split; [now apply tree_eqb_views|now apply views_eq_tree_eqb].
 Qed.
+
+(** the other direction: a flat dictionary plus a tuple of empty keys whose
+    keys are pairwise distinct and prefix-consistent (no key path is a prefix of
+    another) is recovered by flatten_dict after unflatten_dict, up to order *)
+Theorem C19_flatten_unflatten (sep : Z) (flat : list (str * Z)) (empties : list str) :
+  NoDup (map fst flat ++ empties) ->
+  PF (flat_entries sep flat empties) ->
+  exists r flat' empties',
+    unflatten_dict sep flat empties = Some r /\
+    flatten_dict sep [] r = Some (flat', empties') /\
+    Permutation flat' flat /\ Permutation empties' empties.
+Proof. exact (flatten_unflatten sep flat empties). Qed.
+
+(** replace_with_matching_or_default returns the structure of [x]: the same
+    dictionaries (empty ones included) and a leaf wherever [x] has a leaf *)
+Theorem C19_replace_structure (x repl : dict) (default : Z) (chk : bool) (r : dict) :
+  wf_dict amp x = true ->
+  replace_with_matching_or_default x repl default chk = Some r ->
+  forall q, match view q (Node x) with
+            | Some (Some _) => exists v, view q (Node r) = Some (Some v)
+            | o => view q (Node r) = o
+            end.
+Proof. exact (replace_structure x repl default chk r). Qed.
 
 (** pack / unpack, stack / unstack, split / concatenate *)
 Theorem C19_unpack_pack {A} (leaves : list (list A)) packed :
@@ -99,9 +122,27 @@ Example C19_hyps_satisfiable :
   wf_dict 38 [([97; 38; 98], Leaf 1)]%Z = false.
 Proof. vm_compute. repeat split; reflexivity. Qed.
 
+(** regression instances of the two repaired defects, and a prefix-consistent flat dictionary:
+    {'ab': {}, 'ac': {}} and {'': {'a': 1}, 'a': 2} are accepted and round-trip;
+    flat = {'a&b': 1, 'c': 2}, empty = ('a&d',) satisfies the hypotheses of C19_flatten_unflatten *)
+Example C19_regressions :
+  flatten_dict 38 [] [([97; 98], Node []); ([97; 99], Node [])]%Z = Some ([], [[97; 98]; [97; 99]])%Z /\
+  flatten_dict 38 [] [([], Node [([97], Leaf 1)]); ([97], Leaf 2)]%Z = Some ([([38; 97], 1); ([97], 2)], [])%Z /\
+  unflatten_dict 38 [([38; 97], 1); ([97], 2)]%Z [] = Some [([], Node [([97], Leaf 1)]); ([97], Leaf 2)]%Z /\
+  NoDup (map fst [([97; 38; 98], 1); ([99], 2)] ++ [[97; 38; 100]])%Z /\
+  PF (flat_entries 38 [([97; 38; 98], 1); ([99], 2)] [[97; 38; 100]])%Z.
+Proof.
+  repeat split; try (vm_compute; reflexivity).
+  - repeat constructor; cbn; intuition discriminate.
+  - intros e1 e2 H1 H2. cbn in H1, H2.
+    destruct H1 as [<-|[<-|[<-|[]]]], H2 as [<-|[<-|[<-|[]]]]; (now left) || (now right).
+Qed.
+
 Print Assumptions C19_unflatten_flatten.
 Print Assumptions C19_unflatten_flatten_paths.
 Print Assumptions C19_dict_eq_is_pathwise.
+Print Assumptions C19_flatten_unflatten.
+Print Assumptions C19_replace_structure.
 Print Assumptions C19_unpack_pack.
 Print Assumptions C19_unstack_stack.
 Print Assumptions C19_concat_split.
@@ -109,3 +150,4 @@ Print Assumptions C19_empty_pytree.
 Print Assumptions C19_down_up_identity.
 Print Assumptions C19_upsample_coef.
 Print Assumptions C19_hyps_satisfiable.
+Print Assumptions C19_regressions.
